@@ -1,0 +1,38 @@
+//go:build verif
+
+package store
+
+// Test-only seams for the C01 runtime monitor (/verif/harness/c01). Inert
+// without the `verif` build tag. Wrappers only.
+
+// VerifC01DrainNext runs one drain step, exactly what a drain worker does on
+// one tick. No-op when the memory cache is disabled.
+func (s *CAStore) VerifC01DrainNext() {
+	if s.drain == nil {
+		return
+	}
+	s.drainNext()
+}
+
+// VerifC01DrainQueueLen returns the number of queued drain items.
+func (s *CAStore) VerifC01DrainQueueLen() int {
+	if s.drain == nil {
+		return 0
+	}
+	s.drain.mu.Lock()
+	defer s.drain.mu.Unlock()
+	return s.drain.queue.Len()
+}
+
+// VerifC01CleanupExpired runs the memory cache TTL pass on demand.
+func (s *CAStore) VerifC01CleanupExpired() {
+	if s.memCache == nil {
+		return
+	}
+	s.cleanupMemoryCacheExpiredEntries()
+}
+
+// VerifC01InMemCache reports whether name is currently a memory cache entry.
+func (s *CAStore) VerifC01InMemCache(name string) bool {
+	return s.memCache != nil && s.memCache.Get(name) != nil
+}
